@@ -201,9 +201,9 @@ class Gen(object):
         m = self.modelled
         dirs = []
         newvars = []
-        kinds = ['if', 'for', 'with', 'choose', 'strip', 'content', 'replace']
+        kinds = ['if', 'for', 'with', 'choose', 'strip', 'content', 'replace', 'def']
         if not m:
-            kinds += ['attrs', 'def', 'match']
+            kinds += ['attrs', 'match']
         k = rng.choice([1, 1, 1, 2, 2, 3])
         for name in rng.sample(kinds, min(k, len(kinds))):
             if name == 'if':
@@ -279,10 +279,11 @@ class Gen(object):
             return self.i18n_choose(loopvars)
         if self.includes and 0.15 <= r < 0.25 and not self.modelled:
             return self.include()
-        if not self.modelled and 0.25 <= r < 0.40 and self.defs:
+        if 0.25 <= r < 0.40 and self.defs:
             fn, arg = rng.choice(self.defs)
             self.features.add('call-def')
-            return '${%s(%s)}' % (fn, '' if not arg else rng.choice(['a', '1', "'z'"]))
+            give = bool(arg) if rng.random() < 0.85 else not arg      # sometimes too few / too many arguments
+            return '${%s(%s)}' % (fn, '' if not give else rng.choice(['a', '1', "'z'"]))
         if not self.modelled and 0.40 <= r < 0.43:
             self.features.add('python-pi')
             return '<?python pv = %s ?>' % rng.choice(['1', 'len("ab")', 'n'])
